@@ -590,8 +590,8 @@ def parse_grist_names(builder):
           table_id = obj.name
           start = atok.get_text_range(node)[0]
           end = start + len(node.arg)
-          if node.arg == 'order_by':
-            # Rename values in 'order_by' arguments to lookup methods.
+          if node.arg in ('order_by', 'sort_by'):
+            # Rename values in 'order_by' (and legacy 'sort_by') arguments to lookup methods.
             parsed_names.extend(list_order_group_by_tuples(table_id, node.value))
           elif code_text[start:end] == node.arg:
             parsed_names.append(make_tuple(start, end, table_id, node.arg))
